@@ -95,7 +95,7 @@ theorem parseBody_data (pol : Nat) (hpol : pol = 0xFF ∨ pol = 0) (sb : Bytes) 
         ((Entry.data f v x nx).nextField pol) (Entry.data f v x nx).attrs ((Entry.data f v x nx).ser pol)
       = .ok (some (expectNVar pol guids ⟨off, .data f v x nx, headFor done (.data f v x nx) off⟩, guids.take k)) := by
   simp only [Entry.ok, Bool.and_eq_true, decide_eq_true_eq] at hok
-  obtain ⟨⟨hsz, _⟩, ⟨hf, hx⟩, hnx⟩ := hok
+  obtain ⟨hsz, ⟨hf, hx⟩, hnx⟩ := hok
   obtain ⟨ha, hbv, hbd, hbx, hba⟩ := data_bits f v x nx hf
   obtain ⟨hl, hnv⟩ := lastFlag_cases pol hpol nx hnx
   have hext : extOk (Entry.data f v x nx).attrs (Entry.data f v x nx).size ((Entry.data f v x nx).ser pol) = true := by
@@ -160,7 +160,7 @@ theorem parseBody_var (pol : Nat) (hpol : pol = 0xFF ∨ pol = 0) (sb : Bytes) (
       = .ok (some (expectNVar pol guids ⟨off, .var f g n v x nx, headFor done (.var f g n v x nx) off⟩,
                    guids.take (max k (idxBound (.var f g n v x nx))))) := by
   simp only [Entry.ok, Bool.and_eq_true, decide_eq_true_eq] at hok
-  obtain ⟨⟨hsz, _⟩, ⟨⟨⟨⟨hf, hg⟩, hn⟩, hx⟩, hnx⟩⟩ := hok
+  obtain ⟨hsz, ⟨⟨⟨⟨hf, hg⟩, hn⟩, hx⟩, hnx⟩⟩ := hok
   obtain ⟨ha, hbv, hbd, hbn, hbg, hbx, hba⟩ := var_bits f g n v x nx hf
   obtain ⟨hl, hnv⟩ := lastFlag_cases pol hpol nx hnx
   have hser : (Entry.var f g n v x nx).ser pol
